@@ -77,11 +77,11 @@ Theorem c10_ipv6_header_exact : forall ports base m h plen nh rest,
   run_parser ports PIPv6 base m (ip6_hdr h nh plen ++ rest) =
   Ok ((if base then assign (ip6_assign h nh) else (fun x => x)) (add_layer m PIPv6), 40, next_proto nh).
 Proof. exact ip6_contract. Qed.
-Theorem c10_tcp_header_exact : forall base m sp dp fl rest,
-  sp < 65536 -> dp < 65536 ->
-  run_parser [] PTCP base m (enc_l4 (L4TCP sp dp fl) ++ rest) =
+Theorem c10_tcp_header_exact : forall base m sp dp fl ow rest,
+  sp < 65536 -> dp < 65536 -> ow <= 10 ->
+  run_parser [] PTCP base m (enc_l4 (L4TCP sp dp fl ow) ++ rest) =
   Ok ((if base then assign [(cSrcPort, VI sp); (cDstPort, VI dp); (cTcpFlags, VI fl)] else (fun x => x)) (add_layer m PTCP),
-      20, PNone).
+      20 + 4 * ow, PNone).
 Proof. exact tcp_contract. Qed.
 Print Assumptions c10_tcp_header_exact.
 
